@@ -1,3 +1,4 @@
+import F3.Proofs.SkelTieCertX
 import F3.Model.CertX
 import F3.Spec.CertX
 import F3.Proofs.CertX
@@ -685,4 +686,20 @@ example :
 
 end EmptyResponse
 
+end F3.Props.C16
+
+namespace F3.Props.C16
+section Skeletons
+
+/-- **The Go functions this property's models mirror still have the statement structure the models were written
+against**: each regenerated skeleton (pre-order list of statement kinds, `tools/go2lean/skel.go`) equals the pinned
+expectation of `F3/Proofs/SkelTie*.lean`. An added early return, cap, loop or dropped branch in one of these functions
+breaks this obligation even when no regenerated *expression* changes. -/
+theorem code_structure_as_modelled :
+    F3.Gen.SkelCertX.skelClientRequest = F3.SkelTie.SkelCertX.skelClientRequestExpected ∧
+    F3.Gen.SkelCertX.skelPollerPoll = F3.SkelTie.SkelCertX.skelPollerPollExpected ∧
+    F3.Gen.SkelCertX.skelNewPoller = F3.SkelTie.SkelCertX.skelNewPollerExpected :=
+  ⟨F3.SkelTie.SkelCertX.skelClientRequest_expected, F3.SkelTie.SkelCertX.skelPollerPoll_expected, F3.SkelTie.SkelCertX.skelNewPoller_expected⟩
+
+end Skeletons
 end F3.Props.C16
